@@ -46,8 +46,8 @@ claim("C05", "Proof of buildErrorExtra's type-selection contract for every dynam
       "json.Marshal renders the struct it is given (assumed).", ["message passthrough (err.Error()) and JSON rendering", "the recover wrappers that build RuntimeError RpcErrors for panics are not under contract yet"])
 claim("C08", "Proof, for all int64/time.Time inputs, of the scalar time codecs against a mathematical time model (nsOf): daysSinceEpoch is the floor UTC day for every representable date32, microsSinceMidnight is the exact microsecond of day, timestampToTime is the exact instant for every unit and every int64, plus round-trip lemmas at wire precision.",
       "time package model of trusted/stdlib.spec (Unix, UTC, Add exact, Sub saturating, Clock on UTC).", ["the reflect-driven struct walk, lists/maps/structs/decimals/enums/strings", "Arrow builders storing what they are given", "duration decode arm inside setFieldFromArrow (reflect function)"])
-claim("C10", "Proof that parseSemver yields the numeric major/minor of a canonical version (refusing parts that do not fit an int) and that checkProtocolVersion returns nil iff the version is present, canonical and numerically equal in major.minor to the server's; panic-freedom of parseSemver.",
-      "semverRegex facts and strconv.Atoi incl. its clamped range-error result are assumed contracts.", ["the three gate call sites (serveOne, handleUnary, handleStreamInit) are not under contract yet", "message text parity with Python"])
+claim("C10", "Proof that parseSemver yields the numeric major/minor of a canonical version (refusing parts that do not fit an int) and that checkProtocolVersion returns nil iff the version is present, canonical and numerically equal in major.minor to the server's; the directional message; panic-freedom of parseSemver; the regex lemma pinning semverRegex to the reference language; and, over every path of the three dispatching functions (serveOne on the pipe, handleUnary and handleStreamInit on HTTP), that the dispatch / parameter binding is reached only after Server.protocolVersionSet was read and, when it was set, checkProtocolVersion admitted the request's own declared version (value and presence of the metadata key); that a refusal answers with the gate's error (HTTP 400); that the __describe__ short-circuits (pipe and HTTP) run before the gate.",
+      "semverRegex facts and strconv.Atoi incl. its clamped range-error result are assumed contracts. The flag Server.protocolVersionSet is the value the function itself read (at-load path flag); a concurrent SetProtocolVersion is outside.", ["message text parity with Python beyond the directional sentence", "the error_kind key on the wire (C05's buildErrorExtra contract)"])
 claim("C15", "Proof that checkTokenAge refuses exactly tokens older than the TTL, and call-site obligations that every call-cache insertion (mint path and cache-miss path) is stamped with the authenticated token's own creation time, only after age and call-id checks, and that the cache computes expiry as createdAt+ttl.",
       "time.Since modelled as one clock reading per call; container/list not modelled.", ["callStateCache.get expiry comparison and LRU eviction (container/list)", "cross-instance interleavings"])
 claim("C18", "Proof of readHTTPBody's cap selection, exact saturating cap arithmetic (no int64 wraparound), read-at-most-cap+1, refusal type of oversize bodies, identity passthrough, the decoded-cap formula; decompressBounded's output bound and unknown-coding error type; DecodeContentEncoding index safety and termination; writeBodyReadError's 413/415/400 mapping; data flow: the decoder that is read to the end was built over the whole raw body and is never switched out of whole-input mode, and what is returned is what that read produced.",
